@@ -51,6 +51,13 @@ Example C17_nonvacuous :
   /\ window_spec 4 chunks = [10; 11; 12; 13]%N.
 Proof. vm_compute. repeat split; reflexivity. Qed.
 
+(* Tie to the source: the capacity a window is created with is internal.BinaryPow(bits) as regenerated (loop and all)
+   from internal/utils.go on every run, and that is 2^bits for every negotiable size *)
+Theorem C17_capacity_from_source : forall bits, (bits <= 15)%nat ->
+  Z.of_nat (sw_size (sw_init bits)) = gf_internal_BinaryPow (Z.of_nat bits)
+  /\ gf_internal_BinaryPow (Z.of_nat bits) = (2 ^ Z.of_nat bits)%Z.
+Proof. intros bits H. split; [apply window_capacity_from_source; exact H|apply gen_BinaryPow_is; lia]. Qed.
+
 (* Tie to the source: the four branch conditions of slideWindow.Write (disabled; fits; free space left; chunk at least
    as long as the window), as regenerated from compress.go on every run, are the conditions of the model sw_write *)
 Theorem C17_conditions_from_source : forall (w : window) (p : list N),
@@ -69,3 +76,4 @@ Print Assumptions C17_disabled.
 Print Assumptions C17_compose.
 Print Assumptions C17_length_bounded.
 Print Assumptions C17_conditions_from_source.
+Print Assumptions C17_capacity_from_source.
